@@ -12,12 +12,25 @@ structure Adv (c c' : Cli μ ρ) (k : Nat) (out : List μ) : Prop where
   rest : c'.rest = c.rest.drop k
   msgs : out ++ c'.cur = c.cur ++ (c.rest.take k).flatMap (·.msgs)
   reach : c'.reach = c.reach
+  cancelIs : c'.cancelIs = c.cancelIs
 
-theorem Adv.refl (c : Cli μ ρ) : Adv c c 0 [] := ⟨by simp, rfl, by simp, by simp, rfl⟩
+/-- no request can reach the server after the caller cancelled: the transport does not let a stream
+opened under a cancelled context through, or the cancellation is reported as (a wrap of)
+`context.Canceled` so that the interceptor does not even try -/
+def Quiet (c : Cli μ ρ) : Prop := c.reach = false ∨ c.cancelIs = true
+
+theorem Quiet.of_adv {c c' : Cli μ ρ} {k : Nat} {o : List μ} (hq : Quiet c) (h : Adv c c' k o) : Quiet c' := by
+  unfold Quiet; rw [h.reach, h.cancelIs]; exact hq
+
+/-- error class of a `RecvMsg` after cancellation -/
+def cancelErr (watch : Bool) (c : Cli μ ρ) : ErrClass :=
+  if watch then .ctxCanceled else if c.cancelIs then .ctxCanceled else .rpcCanceled
+
+theorem Adv.refl (c : Cli μ ρ) : Adv c c 0 [] := ⟨by simp, rfl, by simp, by simp, rfl, rfl⟩
 
 theorem Adv.trans {c c' c'' : Cli μ ρ} {k k' : Nat} {o o' : List μ}
     (h : Adv c c' k o) (h' : Adv c' c'' k' o') : Adv c c'' (k + k') (o ++ o') := by
-  refine ⟨?_, ?_, ?_, ?_, by rw [h'.reach, h.reach]⟩
+  refine ⟨?_, ?_, ?_, ?_, by rw [h'.reach, h.reach], by rw [h'.cancelIs, h.cancelIs]⟩
   · rw [h'.reqs, h.reqs, h.sent, List.append_assoc, List.replicate_append_replicate]
   · rw [h'.sent, h.sent]
   · rw [h'.rest, h.rest, List.drop_drop]
@@ -45,23 +58,23 @@ theorem attempt_adv (fuel : Nat) (last : ErrClass) (c : Cli μ ρ) (hc : c.cur =
   induction fuel generalizing last c with
   | zero => exact ⟨0, Nat.le_refl _, by simpa [hc] using Adv.refl c, hc, fun _ => rfl⟩
   | succ n ih =>
-    obtain ⟨cur, curEnd, rest, sent, reqs, reach⟩ := c
+    obtain ⟨cur, curEnd, rest, sent, reqs, reach, cancelIs⟩ := c
     simp only at hc
     subst hc
     cases rest with
     | nil =>
       simp only [attempt]
-      exact AttemptGood.step (c1 := { cur := [], curEnd := .err, rest := [], sent := sent, reqs := reqs ++ [sent], reach := reach })
-        ⟨by simp, rfl, by simp, by simp, rfl⟩ (ih _ _ rfl)
+      exact AttemptGood.step (c1 := { cur := [], curEnd := .err, rest := [], sent := sent, reqs := reqs ++ [sent], reach := reach, cancelIs := cancelIs })
+        ⟨by simp, rfl, by simp, by simp, rfl, rfl⟩ (ih _ _ rfl)
     | cons s r =>
       simp only [attempt]
       cases hm : s.msgs with
       | cons m ms =>
-        exact ⟨1, Nat.le_refl _, by omega, ⟨by simp, rfl, by simp, by simp [hm], rfl⟩⟩
+        exact ⟨1, Nat.le_refl _, by omega, ⟨by simp, rfl, by simp, by simp [hm], rfl, rfl⟩⟩
       | nil =>
-        have step : Adv { cur := [], curEnd := curEnd, rest := s :: r, sent := sent, reqs := reqs, reach := reach }
-            { cur := ([] : List μ).tail, curEnd := s.fin, rest := r, sent := sent, reqs := reqs ++ [sent], reach := reach } 1 [] :=
-          ⟨by simp, rfl, by simp, by simp [hm], rfl⟩
+        have step : Adv { cur := [], curEnd := curEnd, rest := s :: r, sent := sent, reqs := reqs, reach := reach, cancelIs := cancelIs }
+            { cur := ([] : List μ).tail, curEnd := s.fin, rest := r, sent := sent, reqs := reqs ++ [sent], reach := reach, cancelIs := cancelIs } 1 [] :=
+          ⟨by simp, rfl, by simp, by simp [hm], rfl, rfl⟩
         by_cases hh : s.fin = .hang
         · simp only [hh, if_true]
           exact ⟨1, by omega, by simpa [hh] using step, rfl, fun h => absurd rfl h⟩
@@ -75,11 +88,11 @@ def RecvGood (watch : Bool) (max : Nat) (cancelled : Bool) (c : Cli μ ρ) : Rec
       (watch = true → cancelled = false → e ≠ .blocked → k = max + 1)
 
 /-- one `RecvMsg` -/
-theorem recvCancelled_eq (watch : Bool) (c : Cli μ ρ) (hr : c.reach = false) :
-    recvCancelled watch c = .fail (if watch then .ctxCanceled else .rpcCanceled) c := by
-  cases watch <;> simp [recvCancelled, hr]
+theorem recvCancelled_eq (watch : Bool) (c : Cli μ ρ) (hr : Quiet c) :
+    recvCancelled watch c = .fail (cancelErr watch c) c := by
+  rcases hr with hr | hr <;> cases watch <;> cases hci : c.cancelIs <;> simp_all [recvCancelled, cancelErr]
 
-theorem recvMsg_adv (watch : Bool) (max : Nat) (cancelled : Bool) (c : Cli μ ρ) (hr : c.reach = false) :
+theorem recvMsg_adv (watch : Bool) (max : Nat) (cancelled : Bool) (c : Cli μ ρ) (hr : Quiet c) :
     RecvGood watch max cancelled c (recvMsg watch max cancelled c) := by
   unfold recvMsg
   cases cancelled with
@@ -90,7 +103,7 @@ theorem recvMsg_adv (watch : Bool) (max : Nat) (cancelled : Bool) (c : Cli μ ρ
     simp only [Bool.false_eq_true, if_false]
     cases hcur : c.cur with
     | cons m ms =>
-      exact ⟨0, by omega, fun _ => rfl, rfl, ⟨by simp, rfl, by simp, by simp [hcur], rfl⟩⟩
+      exact ⟨0, by omega, fun _ => rfl, rfl, ⟨by simp, rfl, by simp, by simp [hcur], rfl, rfl⟩⟩
     | nil =>
       by_cases hh : c.curEnd = .hang
       · simp only [hh, if_true]
@@ -112,7 +125,7 @@ theorem recvMsg_adv (watch : Bool) (max : Nat) (cancelled : Bool) (c : Cli μ ρ
             exact ⟨k, h2, fun h => by simp at h, fun h => by simp at h, h3, fun _ => h4, fun _ _ he => h5 he⟩
 
 /-- the caller's loop -/
-theorem recvLoop_adv (watch : Bool) (max : Nat) (fuel : Nat) (ca : Option Nat) (c : Cli μ ρ) (hr : c.reach = false) :
+theorem recvLoop_adv (watch : Bool) (max : Nat) (fuel : Nat) (ca : Option Nat) (c : Cli μ ρ) (hr : Quiet c) :
     ∃ k, (watch = false → k = 0) ∧
       Adv c (recvLoop watch max ca fuel c).final k (recvLoop watch max ca fuel c).delivered := by
   induction fuel generalizing ca c with
@@ -128,12 +141,12 @@ theorem recvLoop_adv (watch : Bool) (max : Nat) (fuel : Nat) (ca : Option Nat) (
     · rename_i m c' heq
       rw [heq] at h1
       obtain ⟨k, _, hw, _, h⟩ := h1
-      obtain ⟨k', hw', h'⟩ := ih (ca.map (· - 1)) c' (by rw [h.reach, hr])
+      obtain ⟨k', hw', h'⟩ := ih (ca.map (· - 1)) c' (hr.of_adv h)
       exact ⟨k + k', fun hh => by rw [hw hh, hw' hh], by simpa using h.trans h'⟩
 
 /-- after the caller cancelled, `RecvMsg` changes nothing on the server side -/
-theorem recvMsg_cancelled (watch : Bool) (max : Nat) (c : Cli μ ρ) (hr : c.reach = false) :
-    recvMsg watch max true c = .fail (if watch then .ctxCanceled else .rpcCanceled) c := by
+theorem recvMsg_cancelled (watch : Bool) (max : Nat) (c : Cli μ ρ) (hr : Quiet c) :
+    recvMsg watch max true c = .fail (cancelErr watch c) c := by
   simp only [recvMsg, if_true]; exact recvCancelled_eq watch c hr
 
 /-- messages still to come -/
@@ -162,7 +175,7 @@ theorem Adv.remaining {c c' : Cli μ ρ} {k : Nat} {o : List μ} (h : Adv c c' k
   omega
 
 /-- with enough fuel an uncancelled run ends because `RecvMsg` failed: nothing is left undelivered -/
-theorem recvLoop_cur_nil (watch : Bool) (max : Nat) (fuel : Nat) (c : Cli μ ρ) (hr : c.reach = false) (hf : remaining c < fuel) :
+theorem recvLoop_cur_nil (watch : Bool) (max : Nat) (fuel : Nat) (c : Cli μ ρ) (hr : Quiet c) (hf : remaining c < fuel) :
     (recvLoop watch max none fuel c).final.cur = [] := by
   induction fuel generalizing c with
   | zero => omega
@@ -179,10 +192,10 @@ theorem recvLoop_cur_nil (watch : Bool) (max : Nat) (fuel : Nat) (c : Cli μ ρ)
       obtain ⟨k, _, _, _, h⟩ := h1
       have := h.remaining
       simp only [List.length_cons, List.length_nil] at this
-      exact ih c' (by rw [h.reach, hr]) (by omega)
+      exact ih c' (hr.of_adv h) (by omega)
 
 /-- cancelling after `n` messages yields a prefix of the uncancelled run, on both sides of the wire -/
-theorem recvLoop_cancel_prefix (watch : Bool) (max : Nat) (fuel : Nat) (n : Nat) (c : Cli μ ρ) (hr : c.reach = false) :
+theorem recvLoop_cancel_prefix (watch : Bool) (max : Nat) (fuel : Nat) (n : Nat) (c : Cli μ ρ) (hr : Quiet c) :
     (recvLoop watch max (some n) fuel c).delivered = ((recvLoop watch max none fuel c).delivered).take n ∧
     (recvLoop watch max (some n) fuel c).final.reqs <+: (recvLoop watch max none fuel c).final.reqs := by
   induction fuel generalizing n c with
@@ -207,7 +220,7 @@ theorem recvLoop_cancel_prefix (watch : Bool) (max : Nat) (fuel : Nat) (n : Nat)
       | msg m c' =>
         rw [hrm] at hadv
         obtain ⟨_, _, _, _, ha⟩ := hadv
-        have := ih n c' (by rw [ha.reach, hr])
+        have := ih n c' (hr.of_adv ha)
         simp only [Option.map_some, Nat.add_sub_cancel, Option.map_none, List.take_succ_cons]
         exact ⟨by rw [this.1], this.2⟩
 
